@@ -895,6 +895,9 @@ class Node:
         except Exception as e:
             self.logger.error(f"{conn} failed to handle message: {e}",
                               exc_info=True)
+            if not msg.header.is_request:
+                # an answer is never answered
+                return
             err = self._generate_answer(conn, msg)
             err.result_code = constants.E_RESULT_CODE_DIAMETER_UNABLE_TO_COMPLY
             err.error_message = "Message handling error"
